@@ -67,6 +67,12 @@ def run_tlc(cwd, module, cfg=None, workers=1, heap="2g", timeout=3600, extra=())
     return p.returncode, p.stdout
 
 
+# what each negative control must be rejected for
+NEG_EXPECT = {"MC_AlgRound_pinned": "Refines", "MC_AlgArith_nofloor": "AddRefines", "MC_AlgArith_remsign": "DivRefines",
+              "MC_AlgArith_noflip": "CmpRefines", "MC_AlgQuo_nosticky": "Refines", "MC_AlgQuo_nocarry": "Refines",
+              "MC_AlgQuantize_nomode": "Refines", "MC_AlgNumDigits_noborder": "Agrees", "MC_AlgNumDigits_gt": "Agrees",
+              "MC_BigInt_buggy": "ZeroNotNegative", "AlgLoops_pinned": "Returns", "Conc_viewwrite": "SharedUnchanged"}
+
 STATS_RE = re.compile(r"(\d+) states generated, (\d+) distinct states found")
 
 
@@ -164,8 +170,12 @@ class Run:
         gen, dist = tlc_stats(out)
         ok = tlc_ok(out)
         if expect_violation:
-            # negative control: the model of the defective variant MUST be rejected by TLC
-            ok = bool(re.search(r"Temporal propert(y|ies) .*violated|Invariant \S+ is violated", out))
+            # negative control: the model of the defective variant MUST be rejected by TLC - and for the stated reason
+            want = NEG_EXPECT.get((cfg or module).replace(".cfg", ""))
+            if want:
+                ok = bool(re.search(r"Invariant %s is violated|Temporal propert(y|ies) %s (was|were) violated" % (want, want), out))
+            else:
+                ok = bool(re.search(r"Temporal propert(y|ies) .*violated|Invariant \S+ is violated", out))
         self.mc.append({"module": module, "cfg": cfg or module + ".cfg", "ok": ok, "generated": gen,
                         "distinct": dist, "wall_s": round(time.time() - t, 1),
                         "negative_control": bool(expect_violation)})
